@@ -3,8 +3,9 @@
 
    A [prog] is an arbitrary nesting of the three context managers
        with try_compute: ...      with Awaiting(d): ...      with handle_reports(fn): ...
-   whose bodies may finish, `return`, or raise any exception at any point; it also contains the two
-   places where the state is *read* (not_ready, emit_report).  [eval] is Python's `with` statement:
+   whose bodies may finish, `return`, or raise any exception at any point; it also contains the
+   places where the state is *read* (not_ready, emit_report, is_awaiting) and BaseDeferred.wait, which
+   reads and fills try_compute.not_ready_yet while speculating.  [eval] is Python's `with` statement:
    __enter__ may raise (then __exit__ is not called), __exit__ is called on every other way out
    with the exception (or None), it may raise itself or return a truthy value to swallow. *)
 From Coq Require Import String List NArith ZArith Bool.
@@ -28,6 +29,9 @@ Inductive prog :=
 | PReport (p : priority) (rest : prog)   (* reports.emit_report(p, ...) *)
 | PIfAwaiting (d : N) (pt pe : prog)     (* if d.is_awaiting: pt else: pe   (the flag is read by deferred.py) *)
 | PCall (body rest : prog)               (* a function call: `return` inside ends the call only *)
+| PWait (d : N) (body rest : prog)       (* v = d.wait() ; rest  -- BaseDeferred.wait with [body] as d._wait():
+                                            refused at once while speculating if d is in not_ready_yet; otherwise
+                                            `with Awaiting(d)`, and a NotReadyError of the body is recorded there *)
 | PWith (c : cm) (body rest : prog).     (* with c: body ; rest *)
 
 (* module-level state + the per-instance latch (is_error_condition lives on the instance) *)
@@ -95,6 +99,25 @@ Fixpoint eval (p : prog) (s : mstate) : outcome * mstate :=
       | (ORaise e, s') => (ORaise e, s')
       | (_, s') => eval rest s'
       end
+  | PWait d body rest =>
+      if wait_blocked d (g s) then (ORaise ENotReady, s) else
+      match await_enter d (g s) with
+      | SRaise e g' => (ORaise e, mk_mstate g' (latches s))
+      | SOk g1 =>
+          let (o, s2) := eval body (mk_mstate g1 (latches s)) in
+          let s2' := match o with
+                     | ORaise ENotReady => mk_mstate (wait_record d (g s2)) (latches s2)   (* except NotReadyError: ... ; raise *)
+                     | _ => s2
+                     end in
+          match await_exit d (g s2') with
+          | SRaise e' g3 => (ORaise e', mk_mstate g3 (latches s2'))
+          | SOk g3 => let s3 := mk_mstate g3 (latches s2') in
+                      match o with
+                      | ORaise e => (ORaise e, s3)
+                      | _ => eval rest s3                  (* `return self._wait()`: the call returns, the caller goes on *)
+                      end
+          end
+      end
   | PWith c body rest =>
       match enter c s with
       | EnterRaise e s' => (ORaise e, s')
@@ -127,8 +150,8 @@ Fixpoint raised_in (p : prog) : list exn :=
   | PEnd | PReturn => []
   | PRaise e => [e]
   | PNotReady r | PReport _ r => raised_in r
-  | PIfAwaiting _ a b | PCall a b => raised_in a ++ raised_in b
+  | PIfAwaiting _ a b | PCall a b | PWait _ a b => raised_in a ++ raised_in b
   | PWith c b r => (match c with CHandle _ (ObjRaises e) => [e] | _ => [] end) ++ raised_in b ++ raised_in r
   end.
 
-Definition initial_gstate : gstate := mk_gstate 0 [] (fun _ => false) [].
+Definition initial_gstate : gstate := mk_gstate 0 [] (fun _ => false) [] [].
